@@ -261,6 +261,34 @@ def theorems_of(prop_id):
     return re.findall(r'^\s*(?:Theorem|Lemma|Corollary)\s+(\w+)', src, re.M)
 
 
+def gen_deps_of(prop_id):
+    """names of the Gen/ modules that Props/<id>.v and Entries/<id>.v depend on, transitively
+    (read from the dependency file coq_makefile maintains); None if it cannot be determined"""
+    dfile = os.path.join(COQ, '.Makefile.d')
+    if not os.path.exists(dfile):
+        return None
+    deps = {}
+    for line in open(dfile).read().replace('\\\n', ' ').split('\n'):
+        if ':' not in line:
+            continue
+        lhs, rhs = line.split(':', 1)
+        srcs = [x for x in rhs.split() if x.endswith('.vo') or x.endswith('.v')]
+        for t in lhs.split():
+            if t.endswith('.vo'):
+                deps.setdefault(t, set()).update(x for x in srcs if x.endswith('.vo'))
+    roots = ['theories/Props/%s.vo' % prop_id, 'theories/Entries/%s.vo' % prop_id]
+    seen, todo = set(), [r for r in roots if r in deps]
+    if not todo:
+        return None
+    while todo:
+        t = todo.pop()
+        if t in seen:
+            continue
+        seen.add(t)
+        todo.extend(deps.get(t, ()))
+    return {os.path.basename(t)[:-3] for t in seen if t.startswith('theories/Gen/')}
+
+
 def build(prop_id, log=None, thorough=False):
     """Regenerate Gen/*.v from /repo, make the Coq project, extract, build the
     driver, check assumptions of Props/<prop_id>.v. Returns a status dict."""
@@ -276,6 +304,7 @@ def build(prop_id, log=None, thorough=False):
         st['translator_ok'] = (rc == 0)
         if rc != 0:
             st['translator_msg'] = out[-2000:]
+            st['translator_scope'] = 'all'
         sh('python3 %s' % os.path.join(VERIF, 'tools', 'gen_build.py'))
         if not os.path.exists(os.path.join(COQ, 'Makefile')) or \
                 os.path.getmtime(os.path.join(COQ, 'Makefile')) < os.path.getmtime(os.path.join(COQ, '_CoqProject')):
@@ -285,6 +314,21 @@ def build(prop_id, log=None, thorough=False):
         st['make_ok'] = (rc == 0)
         if rc != 0:
             st['make_msg'] = out[-3000:]
+        if not st['translator_ok']:
+            # a refusal concerns this property only if one of its files (Props, Entries and everything
+            # they import) depends on a generated module whose spec was refused
+            try:
+                tstat = json.load(open(os.path.join(COQ, 'theories', 'Gen', '.translator_status.json')))
+                if not tstat.get('unattributed'):
+                    deps = gen_deps_of(prop_id)
+                    hit = sorted(set(tstat.get('stale_modules', [])) & deps)
+                    if deps is not None and not hit:
+                        st['translator_ok'] = True
+                        st['translator_scope'] = 'other properties only: ' + ', '.join(sorted(tstat.get('refused', {})))
+                    else:
+                        st['translator_scope'] = 'generated modules of this property: ' + ', '.join(hit)
+            except Exception as e:
+                st['translator_scope'] = 'all (no attribution: %s)' % e
         vo = os.path.join(COQ, 'theories', 'Props', prop_id + '.vo')
         src = os.path.join(COQ, 'theories', 'Props', prop_id + '.v')
         st['theorems'] = theorems_of(prop_id)
